@@ -338,10 +338,15 @@ where
             .cdn
             .fetch_archive_range(archive_id, offset, length)
             .await?;
-        self.cache
+        // A full cache must not fail the read-through: the range was fetched
+        match self
+            .cache
             .put_range(archive_id, offset, length, data.clone())
-            .await?;
-        Ok(data)
+            .await
+        {
+            Ok(()) | Err(NgdpCacheError::CacheFull) => Ok(data),
+            Err(e) => Err(e),
+        }
     }
 }
 
